@@ -48,6 +48,11 @@ AFF_R = {
     "rot30": Affine(0.5, 0, 16.0, 0, -0.5, 32.0) * Affine.rotation(30),
     "rot30-ns": Affine(30.0, 0, 500010.0, 0, -10.0, 6000020.0) * Affine.rotation(-30),
     "sheared-r": Affine(0.1, 0.03, 10.3, 0.01, -0.1, 47.7),
+    # scale extremes: half-metre pixels expressed in degrees, and 100 km pixels
+    "rot30-tiny": Affine(4.5e-6, 0, 151.2, 0, -4.5e-6, -33.8) * Affine.rotation(30),
+    "mirrored-ns-tiny-rot": Affine(-9e-6, 0, 151.2, 0, 3e-6, -33.8) * Affine.rotation(-12),
+    "sheared-tiny": Affine(4.5e-6, 1.5e-6, 151.2, 0, -4.5e-6, -33.8),
+    "rot30-huge": Affine(1e5, 0, -2.0e6, 0, -1e5, 8.0e6) * Affine.rotation(30),
 }
 
 
@@ -510,6 +515,9 @@ def run_gcp(case):
 
     def check(g, M, label):
         for p in probe_points(tuple(g.shape)):
+            ox_, oy_ = M * p
+            if kind != "affine" and not (-3 <= ox_ <= 13 and -3 <= oy_ <= 11):
+                continue  # far outside the control points a polynomial fit extrapolates: no claim
             gx, gy = g.pix2wld(*p)
             ex, ey = truth(*(M * p))
             if abs(gx - ex) > tol or abs(gy - ey) > tol:
@@ -523,13 +531,32 @@ def run_gcp(case):
             r.fail(f"gcp:{label}:crs", what)
 
     check(G, Affine.identity(), "base")
-    if ny > 2 and nx > 2:
-        check(G[1:-1, 2:], Affine.translation(2, 1), "crop")
-    check(G.pad(2), Affine.translation(-2, -2), "pad")
-    check(G.zoom_out(2), Affine.scale(2), "zoom_out")
-    check(G.zoom_to((4, 5)), Affine.scale(nx / 5, ny / 4), "zoom_to")
-    if ny > 2 and nx > 2:
-        check(G[1:, 1:].zoom_out(0.5), Affine.translation(1, 1) * Affine.scale(0.5), "crop+zoom")
+    # chains of view operations (non-initial states): the composed pixel map must hold after every step
+    ops = [("crop", lambda g: g[1:-1, 2:] if g.shape[0] > 2 and g.shape[1] > 2 else None, lambda g: Affine.translation(2, 1)),
+           ("croplast", lambda g: g[-1:, :], lambda g: Affine.translation(0, g.shape[0] - 1)),
+           ("pad", lambda g: g.pad(2), lambda g: Affine.translation(-2, -2)),
+           ("pad13", lambda g: g.pad(1, 3), lambda g: Affine.translation(-1, -3)),
+           ("zoom_out2", lambda g: g.zoom_out(2), lambda g: Affine.scale(2)),
+           ("zoom_out.5", lambda g: g.zoom_out(0.5), lambda g: Affine.scale(0.5)),
+           ("zoom_to45", lambda g: g.zoom_to((4, 5)), lambda g: Affine.scale(g.shape[1] / 5, g.shape[0] / 4)),
+           ("pad_wh4", lambda g: g.pad_wh(4), lambda g: Affine.identity())]
+    depth = 2 if _TIER[0] == "quick" else 3
+    frontier = [(G, Affine.identity(), ())]
+    seen_labels = set()
+    for _ in range(depth):
+        nxt = []
+        for g, M, hist in frontier:
+            for name, fn, mfn in ops:
+                g2 = fn(g)
+                if g2 is None or max(g2.shape) > 80:
+                    continue
+                M2 = M * mfn(g)
+                label = "+".join(hist + (name,))
+                check(g2, M2, label if len(hist) == 0 else f"{hist[-1]}-then-{name}")
+                nxt.append((g2, M2, hist + (name,)))
+                seen_labels.add(label)
+        frontier = nxt
+    r.counts = dict(op_applications=len(seen_labels))
     return r
 
 
